@@ -244,6 +244,26 @@ pub fn strip_bytes_chunked(chunks: &[&[u8]]) -> Result<Vec<u8>, String> {
     Ok(out)
 }
 
+/// `StrippedBytes::extend`: "used when the content is in several non-contiguous slices"
+pub fn stripped_bytes_extend_chunked(chunks: &[&[u8]]) -> Result<Vec<u8>, String> {
+    let mut it = anstream::adapter::strip_bytes(chunks.first().copied().unwrap_or(&[]));
+    let mut out = Vec::new();
+    for (i, c) in chunks.iter().enumerate() {
+        if i > 0 {
+            if !it.is_empty() {
+                return Err("StrippedBytes::is_empty() is false after the iterator returned None".into());
+            }
+            it.extend(c);
+        }
+        let mut pieces: Vec<&[u8]> = Vec::new();
+        for p in it.by_ref() {
+            pieces.push(p);
+        }
+        out.extend(check_pieces(c, &pieces, "StrippedBytes::extend")?);
+    }
+    Ok(out)
+}
+
 pub fn strip_str_chunked(chunks: &[&str]) -> Result<Vec<u8>, String> {
     let mut s = anstream::adapter::StripStr::new();
     let mut out = Vec::new();
